@@ -31,7 +31,7 @@ ASSUMPTIONS = [
     'finding), 0^0, 0^negative, negative^fraction, overflow',
 ]
 FLOORS = {'evaluate_outcomes': 2000, 'pairs_seen': 144,
-          'reassigned_evaluations': 300, 'two_sheet_evaluations': 300,
+          'reassigned_evaluations': 300, 'chained_evaluations': 300, 'two_sheet_evaluations': 300,
           'decimal_residue_cases': 100, 'postfix_percent_cases': 30, 'big_power_cases': 12, 'error_operand_cases': 300,
           'rendering_groups': 500}
 ANCHOR_FUNCS = {
@@ -190,6 +190,7 @@ class Runner:
                 self.judge(wb, asg, grp)
         self.reassigned(q, list(by_asg))
         self.two_sheets(q, list(by_asg))
+        self.chained(q, list(by_asg))
 
     def two_sheets(self, q, asgs):
         """the same formula TEXTS on two sheets of one workbook, each sheet
@@ -277,6 +278,74 @@ class Runner:
                           [dict(zip(CELLS, a)) for a in asgs[:step + 1]],
                           'observed': got, 'reference': expect[1]},
                          kf=kf, monitor='reassigned-inputs')
+
+    def chained(self, q, asgs):
+        """formula cells three levels deep on ONE model (G1 over the inputs,
+        H1 over G1 and inputs, I1 over H1 and inputs), every level evaluated
+        (top first), then the inputs re-assigned - one setter route per step -
+        and every level evaluated again: each answer is judged against the
+        reference for the inputs that are current"""
+        from xlcalculator import Evaluator
+        ctx = self.ctx
+        rng = ctx.rng
+        arith = [it[0] for it in q if _has_ref(it[0])
+                 and _ops_within(it[0], ('+', '-', '*', '/'))]
+        tops = [it[0] for it in q if _has_ref(it[0])]
+        if len(arith) < 2 or not tops or len(asgs) < 2:
+            return
+        chains = []
+        for n in range(4):
+            a, b = rng.choice(arith), rng.choice(arith)
+            c = rng.choice(tops)
+            col = 7 + 3 * n
+            chains.append([(col, a), (col + 1, _subst_first_ref(b, col)),
+                           (col + 2, _subst_first_ref(c, col + 1))])
+        steps = [rng.choice(asgs) for _ in range(4)]
+        cells = {f'Sheet1!{c}': v for c, v in zip(CELLS, steps[0])}
+        for ch in chains:
+            for col, ast in ch:
+                cells[f'Sheet1!{ref.col_letters(col)}1'] = \
+                    '=' + ref.render(ast, 'minimal')
+        try:
+            model = subject.compile_dict(cells)
+            ev = Evaluator(model)
+        except Exception:  # noqa: a formula the parser rejects is judged elsewhere
+            return
+        routes = [lambda a, v: ev.set_cell_value(a, v),
+                  lambda a, v: model.set_cell_value(a, v)]
+        for step, asg in enumerate(steps):
+            if step:
+                for c, v in zip(CELLS, asg):
+                    routes[step % 2](f'Sheet1!{c}', v)
+            wb = ref.Workbook({('Sheet1', i + 1, 1): v
+                               for i, v in enumerate(asg)})
+            for ch in chains:
+                for col, ast in ch:
+                    wb.cells[('Sheet1', col, 1)] = ('f', ast)
+            for ch in chains:
+                for col, ast in reversed(ch):
+                    addr = f'Sheet1!{ref.col_letters(col)}1'
+                    expect = ref_value(wb, ('ref', None, col, 1, False,
+                                            False))
+                    got = subject.outcome_of(lambda: ev.evaluate(addr))
+                    if expect[0] == 'undecided':
+                        break       # lower levels are judged, this chain not
+                    ctx.event('chained_evaluations')
+                    if got[0] == 'value' and values_equal(got[1], expect[1]):
+                        continue
+                    kf = self.attribute(wb, ast, got)
+                    ctx.fail(f'{addr} ={ref.render(ast, "minimal")} (level '
+                             f'{col - ch[0][0] + 1} of a chain of formula '
+                             f'cells) after {step} re-assignments of the '
+                             f'inputs, now {dict(zip(CELLS, asg))}: observed '
+                             f'{got}, reference {expect[1]}',
+                             {'cells': cells, 'assignments_in_order':
+                              [dict(zip(CELLS, a)) for a in steps[:step + 1]],
+                              'evaluated': addr, 'observed': got,
+                              'reference': expect[1]},
+                             kf=kf, monitor='reassigned-inputs',
+                             group=f'chained:{min(step, 1)}')
+                    break
 
     def judge(self, wb, asg, grp):
         ctx = self.ctx
@@ -401,6 +470,27 @@ def _has_ref(ast):
     if ast[0] == 'ref':
         return True
     return any(_has_ref(x) for x in ast[1:] if isinstance(x, tuple))
+
+def _ops_within(ast, allowed):
+    if ast[0] == 'bin' and ast[1] not in allowed:
+        return False
+    return all(_ops_within(x, allowed) for x in ast[1:]
+               if isinstance(x, tuple))
+
+
+def _subst_first_ref(ast, col):
+    """the tree with its first cell reference replaced by column col, row 1"""
+    done = [False]
+
+    def go(t):
+        if not isinstance(t, tuple):
+            return t
+        if t[0] == 'ref' and not done[0]:
+            done[0] = True
+            return ('ref', None, col, 1, False, False)
+        return tuple(go(x) for x in t)
+    return go(ast)
+
 
 
 def ref_features(wb, ast, quirks=()):
